@@ -825,12 +825,11 @@ def table_wellformed(rows):
 
 def pmap_small(fn, items, nproc=8):
     """fork pool for a short list of heavy jobs (core.parallel_map runs lists shorter than 64 serially)"""
-    import multiprocessing as mp
+    from core import fork_map
     items = list(items)
     if len(items) < 2:
         return [fn(x) for x in items]
-    with mp.get_context("fork").Pool(min(nproc, len(items))) as pool:
-        return pool.map(fn, items, chunksize=1)
+    return fork_map(fn, items, nproc=min(nproc, len(items)), chunksize=1)
 
 
 def build_cases(ctx, res):
